@@ -225,7 +225,11 @@ func c21Tree(t *testing.T, rec *kit.Rec, idx int) {
 	}
 	defer os.RemoveAll(dst)
 	desc := map[string]any{"tree": idx, "sparse": sparse, "big": big}
-	res := restorer.NewRestorer(repo, sn, restorer.Options{Sparse: sparse})
+	// every overwrite mode: the restore goes into an empty directory, so all files are restored
+	// in each mode, and verification must read content whatever the mode (seeded change C21-1)
+	ow := []restorer.OverwriteBehavior{restorer.OverwriteAlways, restorer.OverwriteIfChanged, restorer.OverwriteIfNewer, restorer.OverwriteNever}[(idx/2)%4]
+	desc["overwrite"] = fmt.Sprint(ow)
+	res := restorer.NewRestorer(repo, sn, restorer.Options{Sparse: sparse, Overwrite: ow})
 	count, err := res.RestoreTo(ctx, dst)
 	if err != nil {
 		rec.Violation("restore-failed", fmt.Sprintf("tree %d: RestoreTo failed: %v", idx, err), desc)
